@@ -292,6 +292,17 @@ def oracle(c, r):
                 if not any(abs(xc - x) <= 2e-10 + 1e-9 * abs(xc) for x in cr):
                     yield ("crossings-complete", "the interpolant equals %r at %r but y_crossings = %r" % (lvl, xc, cr))
                     break
+            # a knot exactly at the level (and both ends of a segment lying flat at the level) is a place where the
+            # interpolant equals the level
+            try:
+                m = (ys[i + 1] - ys[i]) / (xs[i + 1] - xs[i])
+            except (ZeroDivisionError, OverflowError):
+                continue
+            if math.isfinite(m):
+                miss = [xs[j] for j in (i, i + 1) if ys[j] == lvl and not any(abs(xs[j] - x) <= 2e-10 + 1e-9 * abs(xs[j]) for x in cr)]
+                if miss:
+                    yield ("crossings-knot", "the series takes the level %r at its knot %r (segment %d, ordinates %r, %r) but y_crossings = %r" % (lvl, miss[0], i, ys[i], ys[i + 1], cr))
+                    break
     # resampling
     rs = pj(r["resampled"])
     n = c["n"]
